@@ -15,7 +15,7 @@ DEFAULT_SCALE = {'DE': (10, 1000), 'DE2': (10, 1000), 'NM': (200, 200), 'PW': (1
 
 # further termination conditions (all of them only read the solver state, except 'gnt': GradientNormTolerance
 # differentiates the user's raw cost)
-TERMS_MORE = ['spread', 'solimp', 'vtrcog', 'or', 'and', 'when', 'gnt', 'collapse']
+TERMS_MORE = ['spread', 'solimp', 'vtrcog', 'or', 'and', 'when', 'gnt', 'collapse', 'collapse2']
 
 
 def uses_gnt(case):
@@ -132,7 +132,7 @@ class SolverState(object):
             return v
         return res(self.maxiter, isc), res(self.maxfun, esc)
 
-    def should_stop(self):
+    def should_stop(self, term=None):
         """model's decision, from its own counts, taken right before a Step"""
         if self.iters() < 1:
             return None
@@ -143,17 +143,18 @@ class SolverState(object):
         if gens >= mi: reasons.append('maxiter')
         if self.exit_requested: reasons.append('exit')
         try:
-            if self.term_now(): reasons.append('termination')
+            if self.term_now(term=term): reasons.append('termination')
         except Exception:
             pass
         return reasons or None
 
-    def term_now(self, info=False):
+    def term_now(self, info=False, term=None):
         """the harness's own look at the termination condition; a condition that evaluates the user's cost
         (GradientNormTolerance differentiates the raw cost) must not show up in the record of the solver's calls"""
         self.cost.enabled = False
         try:
-            return self.solver._termination(self.solver, info) if info else self.solver._termination(self.solver)
+            t = term if term is not None else self.solver._termination
+            return t(self.solver, info) if info else t(self.solver)
         finally:
             self.cost.enabled = True
 
@@ -278,11 +279,11 @@ class SolverState(object):
                         lambda: dict(where=where, msg=msg, termination_info=info))
 
     # -- operations ------------------------------------------------------------
-    def do_step(self, where='step', kw=None):
+    def do_step(self, where='step', kw=None, term=None):
         s = self.solver
         if self.iters() >= 1:
             self.resolve_pending()
-        pre = self.should_stop()
+        pre = self.should_stop(term)
         calls0 = self.cost.ncalls(); it0 = self.iters()
         mi, mf = self.limits()
         if pre is None and it0 >= 1:
@@ -342,15 +343,31 @@ class SolverState(object):
             if first[0]:
                 first[0] = False
                 if it0 < 1: self.resolve_pending()
+        spins = [0, self.iters()]
+        real_collapse = s.Collapse
+
+        def counted_collapse(*a, **k):
+            # Solve applies collapses between iterations: the same collapse over and over without a new iteration never ends
+            if self.iters() == spins[1]:
+                spins[0] += 1
+                if spins[0] > 25:
+                    raise Runaway()
+            else:
+                spins[0] = 0; spins[1] = self.iters()
+            return real_collapse(*a, **k)
+        s.Collapse = counted_collapse
         try:
-            s.Solve(callback=guard2)
+            try:
+                s.Solve(callback=guard2)
+            finally:
+                del s.Collapse
         except Runaway:
             self.expect(False, 'C05.solve_returns',
                         lambda: dict(where=where, iterations=self.iters() - 1, maxiter=mi, solver=self.kind))
             return
         self.solves += 1
         self._look_at_dump()
-        if self.termname == 'collapse':
+        if self.termname in ('collapse', 'collapse2'):
             # Solve applies collapses on its way (Collapse() installs constraints that fix parameters): the objective
             # changed somewhere inside this call, so monotonicity is judged from here on only
             self.redecorate()
@@ -430,6 +447,15 @@ class SolverState(object):
                     self.evalmon = None
             self.ctx.label('step-with-monitor-keywords')
             self.invariants('step_kw')
+        elif k == 'step_term':
+            # a termination condition handed to Step itself: it is the one this very Step has to honour
+            t = lab.make_termination(op[1])
+            if t is None:
+                return
+            self.termname = op[1]
+            self.do_step('step_term', {'termination': t}, term=t)
+            self.ctx.label('termination-handed-to-Step')
+            self.invariants('step_term')
         elif k == 'restart':
             # the solver is abandoned and a restored one takes its place: counters, monitors and callbacks go on
             how = op[1]; s2 = None
@@ -715,6 +741,10 @@ def machine_factory(for_prop):
             def step_kw(self, e, g):
                 if e or g:
                     self.do(['step_kw', dict(evalmon=e, stepmon=g)])
+
+            @rule(t=st.sampled_from(['cog', 'vtr', 'ncog', 'or', 'vtrcog', 'spread', 'never']))
+            def step_term(self, t):
+                self.do(['step_term', t])
 
             @rule(how=st.sampled_from(['save', 'dill', 'periodic', 'periodic']))
             def restart(self, how):
